@@ -293,7 +293,7 @@ theorem lex_top_nil (i : Nat) : tokenizeClaAux cls .top i [] = .ok [] := by
 /-- whitespace at top level is skipped -/
 theorem lex_top_ws (hcls : ClsOk cls) {c : Nat} (hc : cls.isWs c = true) (i : Nat) (s : List Nat) :
     tokenizeClaAux cls .top i (c :: s) = tokenizeClaAux cls .top (i + 1) s := by
-  obtain ⟨h1, h2, h3⟩ := hcls c hc
+  obtain ⟨h1, h2, h3⟩ := hcls.1 c hc
   simp [tokenizeClaAux, h1, h2, h3, hc]
 
 theorem lex_top_lparen (i : Nat) (s : List Nat) :
@@ -338,78 +338,113 @@ theorem lex_lam (s : List Nat) {n : List Nat} (hn : WfName cls n) (i : Nat) :
     tokenizeClaAux cls (.lam [] true) i (n ++ cDot :: s)
       = (CLambda n :: ·) <$> tokenizeClaAux cls .top (i + n.length + 1) s := by
   obtain ⟨⟨c, cs, rfl, hal, _, hrest⟩, hall⟩ := hn
-  have hc : c ≠ cDot := (hall c (by simp)).2.2.2.1
+  have hc : c ≠ cDot := hall c (by simp)
   have := lex_lam_rest (cls := cls) s cs [c] (i + 1)
-    (fun d hd => ⟨hrest d hd, (hall d (by simp [hd])).2.2.2.1⟩)
+    (fun d hd => ⟨hrest d hd, hall d (by simp [hd])⟩)
   simp only [List.cons_append, tokenizeClaAux, hc, beq_iff_eq, if_false, hal, Bool.true_and,
     if_true, List.nil_append, this, List.length_cons]
   congr 2; omega
 
-/-- inside a variable name: everything but whitespace, parentheses and the backslash is
-accumulated -/
+/-- inside a variable name: alphanumeric characters are accumulated -/
 theorem lex_name_rest (s : List Nat) (n : List Nat) :
-    ∀ (acc : List Nat) (i : Nat),
-      (∀ d ∈ n, cls.isWs d = false ∧ d ≠ cLparen ∧ d ≠ cRparen ∧ d ≠ cBackslash) →
+    ∀ (acc : List Nat) (i : Nat), (∀ d ∈ n, cls.isAlnum d = true) →
       tokenizeClaAux cls (.name acc) i (n ++ s)
         = tokenizeClaAux cls (.name (acc ++ n)) (i + n.length) s := by
   induction n with
   | nil => intro acc i _; simp
   | cons d n ih =>
     intro acc i h
-    obtain ⟨h1, h2, h3, h4⟩ := h d (by simp)
+    have h1 := h d (by simp)
     have := ih (acc ++ [d]) (i + 1) (fun e he => h e (by simp [he]))
-    simp only [List.cons_append, tokenizeClaAux, h1, h2, h3, h4, beq_iff_eq, if_false, this,
-      List.append_assoc, List.length_cons, Bool.false_eq_true]
+    simp only [List.cons_append, tokenizeClaAux, h1, if_true, this,
+      List.append_assoc, List.length_cons]
     congr 1; omega
+
+/-- the facts of `ClsOk` about an alphanumeric character -/
+theorem alnum_facts (hcls : ClsOk cls) {c : Nat} (hc : cls.isAlnum c = true) :
+    cls.isWs c = false ∧ c ≠ cLparen ∧ c ≠ cRparen ∧ c ≠ cBackslash := hcls.2.2 c hc
+
+/-- whitespace is not alphanumeric -/
+theorem ws_not_alnum (hcls : ClsOk cls) {c : Nat} (hc : cls.isWs c = true) :
+    cls.isAlnum c = false := by
+  cases h : cls.isAlnum c with
+  | false => rfl
+  | true => rw [(alnum_facts hcls h).1] at hc; cases hc
+
+/-- the parentheses and the backslash are not alphanumeric -/
+theorem lparen_not_alnum (hcls : ClsOk cls) : cls.isAlnum cLparen = false := by
+  cases h : cls.isAlnum cLparen with
+  | false => rfl
+  | true => exact absurd rfl (alnum_facts hcls h).2.1
+
+theorem rparen_not_alnum (hcls : ClsOk cls) : cls.isAlnum cRparen = false := by
+  cases h : cls.isAlnum cRparen with
+  | false => rfl
+  | true => exact absurd rfl (alnum_facts hcls h).2.2.1
+
+theorem backslash_not_alnum (hcls : ClsOk cls) : cls.isAlnum cBackslash = false := by
+  cases h : cls.isAlnum cBackslash with
+  | false => rfl
+  | true => exact absurd rfl (alnum_facts hcls h).2.2.2
 
 /-- whitespace is not a backslash (`ClsOk`: whitespace is not a lambda glyph) -/
 theorem ws_ne_backslash (hcls : ClsOk cls) {c : Nat} (hc : cls.isWs c = true) : c ≠ cBackslash := by
   rintro rfl
-  have := (hcls _ hc).1
+  have := (hcls.1 _ hc).1
   revert this; decide
 
+/-- a character that is not alphanumeric ends a variable name and is then lexed at top level:
+mode `.name` on it is `CName acc ::` what mode `.top` does on it -/
+theorem lex_name_nonalnum (acc : List Nat) (i : Nat) {c : Nat} (hc : cls.isAlnum c = false)
+    (s : List Nat) :
+    tokenizeClaAux cls (.name acc) i (c :: s)
+      = (CName acc :: ·) <$> tokenizeClaAux cls .top i (c :: s) := by
+  simp only [tokenizeClaAux, hc, Bool.false_eq_true, if_false]
+  cases isLam c <;> cases (c == cLparen) <;> cases (c == cRparen) <;> cases cls.isWs c <;>
+    cases cls.isAlpha c <;>
+    simp only [Bool.false_eq_true, if_false, if_true, except_map_map] <;> rfl
+
 /-- a backslash ends a variable name and opens a binder -/
-theorem lex_name_backslash (acc : List Nat) (i : Nat) (s : List Nat) :
+theorem lex_name_backslash (hcls : ClsOk cls) (acc : List Nat) (i : Nat) (s : List Nat) :
     tokenizeClaAux cls (.name acc) i (cBackslash :: s)
       = (CName acc :: ·) <$> tokenizeClaAux cls (.lam [] true) (i + 1) s := by
-  simp [tokenizeClaAux]
+  rw [lex_name_nonalnum acc i (backslash_not_alnum hcls), lex_top_glyph (by decide)]
 
-/-- a delimiter (or the end of the input) ends a variable name and is then lexed at top level -/
-theorem lex_name_end (hcls : ClsOk cls) {s : List Nat} (hs : NameEnd cls s) (acc : List Nat)
-    (i : Nat) :
+/-- a non-alphanumeric character (or the end of the input) ends a variable name and is then lexed
+at top level -/
+theorem lex_name_end {s : List Nat} (hs : NameEnd cls s) (acc : List Nat) (i : Nat) :
     tokenizeClaAux cls (.name acc) i s = (CName acc :: ·) <$> tokenizeClaAux cls .top i s := by
   cases s with
   | nil => simp only [tokenizeClaAux]; rfl
-  | cons c s =>
-    rcases hs with hw | rfl | rfl | rfl
-    · have hb : c ≠ cBackslash := ws_ne_backslash hcls hw
-      rw [lex_top_ws hcls hw]; simp [tokenizeClaAux, hw, hb]
-    · have hw : cls.isWs cLparen = false := by
-        cases h : cls.isWs cLparen with
-        | false => rfl
-        | true => exact absurd rfl (hcls _ h).2.1
-      have hb : (cLparen == cBackslash) = false := by decide
-      rw [lex_top_lparen, except_map_map]; simp [tokenizeClaAux, hw, hb]
-    · have hw : cls.isWs cRparen = false := by
-        cases h : cls.isWs cRparen with
-        | false => rfl
-        | true => exact absurd rfl (hcls _ h).2.2
-      have h2 : (cRparen == cLparen) = false := by decide
-      have hb : (cRparen == cBackslash) = false := by decide
-      rw [lex_top_rparen, except_map_map]; simp [tokenizeClaAux, hw, h2, hb]
-    · rw [lex_name_backslash, lex_top_glyph (by decide)]
+  | cons c s => exact lex_name_nonalnum acc i hs s
 
-/-- a whole variable name followed by a delimiter -/
+/-- the first character of a well-formed name is (alphanumeric, hence) not whitespace and not a
+parenthesis -/
+theorem wfName_head (hcls : ClsOk cls) {c : Nat} {cs : List Nat} (hn : WfName cls (c :: cs)) :
+    cls.isAlpha c = true ∧ isLam c = false ∧ cls.isWs c = false ∧ c ≠ cLparen ∧ c ≠ cRparen := by
+  obtain ⟨⟨c', cs', e, hal, hg, _⟩, _⟩ := hn
+  obtain ⟨rfl, rfl⟩ := List.cons.inj e
+  obtain ⟨h1, h2, h3, _⟩ := alnum_facts hcls (hcls.2.1 _ hal)
+  exact ⟨hal, hg, h1, h2, h3⟩
+
+/-- every character of a well-formed name is alphanumeric -/
+theorem wfName_alnum (hcls : ClsOk cls) {n : List Nat} (hn : WfName cls n) :
+    ∀ d ∈ n, cls.isAlnum d = true := by
+  obtain ⟨⟨c, cs, rfl, hal, _, hrest⟩, _⟩ := hn
+  intro d hd
+  rcases List.mem_cons.1 hd with rfl | hd
+  · exact hcls.2.1 _ hal
+  · exact hrest d hd
+
+/-- a whole variable name followed by a non-alphanumeric character or the end of the input -/
 theorem lex_name (hcls : ClsOk cls) {n s : List Nat} (hn : WfName cls n) (hs : NameEnd cls s)
     (i : Nat) :
     tokenizeClaAux cls .top i (n ++ s)
       = (CName n :: ·) <$> tokenizeClaAux cls .top (i + n.length) s := by
-  obtain ⟨⟨c, cs, rfl, hal, hg, _⟩, hall⟩ := hn
-  obtain ⟨h1, h2, h3, _⟩ := hall c (by simp)
-  rw [List.cons_append, lex_top_alpha hg h2 h3 h1 hal,
-    lex_name_rest s cs [c] (i + 1) (fun d hd =>
-      let ⟨a, b, c, _, e⟩ := hall d (by simp [hd]); ⟨a, b, c, e⟩),
-    lex_name_end hcls hs]
+  obtain ⟨⟨c, cs, rfl, hal, hg, hrest⟩, hall⟩ := hn
+  obtain ⟨_, _, h1, h2, h3⟩ := wfName_head hcls ⟨⟨c, cs, rfl, hal, hg, hrest⟩, hall⟩
+  rw [List.cons_append, lex_top_alpha hg h2 h3 h1 hal, lex_name_rest s cs [c] (i + 1) hrest,
+    lex_name_end hs]
   simp only [List.cons_append, List.nil_append, List.length_cons]
   congr 2; omega
 
@@ -439,26 +474,30 @@ theorem parse_cla_render_indep (cls : CharCls) (hcls : Cl.ClsOk cls) (cts : List
   rw [parse_cla_spec, parse_cla_spec, tokenizeCla_render cls hcls cts s₁ h₁,
     tokenizeCla_render cls hcls cts s₂ h₂]
 
-/-- under the natural Unicode facts (letters are alphanumeric; alphanumeric characters are not
-whitespace, parentheses or the dot; the backslash is not alphanumeric) a well-formed name is just:
-a letter other than `λ`, then alphanumeric characters -/
-theorem wfName_of_unicode (cls : CharCls)
-    (h1 : ∀ c, cls.isAlpha c = true → cls.isAlnum c = true)
-    (h2 : ∀ c, cls.isAlnum c = true →
-      cls.isWs c = false ∧ c ≠ cLparen ∧ c ≠ cRparen ∧ c ≠ cDot)
-    (h3 : cls.isAlnum cBackslash = false)
+/-- for Rust's classification the dot is not alphanumeric (checked by the harness for all code
+points); with that fact and `ClsOk` a well-formed name is just: a letter other than a glyph, then
+alphanumeric characters -/
+theorem wfName_of_unicode (cls : CharCls) (hcls : Cl.ClsOk cls)
+    (hdot : cls.isAlnum cDot = false)
     (c : Nat) (cs : List Nat) (hc : cls.isAlpha c = true) (hg : isLam c = false)
     (hcs : ∀ d ∈ cs, cls.isAlnum d = true) : Cl.WfName cls (c :: cs) := by
   refine ⟨⟨c, cs, rfl, hc, hg, hcs⟩, ?_⟩
-  have hb : ∀ d, cls.isAlnum d = true → d ≠ cBackslash := by
+  have hb : ∀ d, cls.isAlnum d = true → d ≠ cDot := by
     rintro d hd rfl
-    rw [h3] at hd; cases hd
+    rw [hdot] at hd; cases hd
   intro d hd
   rcases List.mem_cons.1 hd with rfl | hd
-  · obtain ⟨a, b, c, e⟩ := h2 _ (h1 _ hc)
-    exact ⟨a, b, c, e, hb _ (h1 _ hc)⟩
-  · obtain ⟨a, b, c, e⟩ := h2 _ (hcs d hd)
-    exact ⟨a, b, c, e, hb _ (hcs d hd)⟩
+  · exact hb _ (hcls.2.1 _ hc)
+  · exact hb _ (hcs d hd)
+
+/-- … and conversely, so under these facts `WfName` IS "a letter other than a glyph followed by
+alphanumeric characters" -/
+theorem wfName_iff_unicode (cls : CharCls) (hcls : Cl.ClsOk cls)
+    (hdot : cls.isAlnum cDot = false) (n : List Nat) :
+    Cl.WfName cls n ↔
+      ∃ c cs, n = c :: cs ∧ cls.isAlpha c = true ∧ isLam c = false ∧
+        ∀ d ∈ cs, cls.isAlnum d = true :=
+  ⟨fun h => h.1, fun ⟨c, cs, e, hc, hg, hcs⟩ => e ▸ wfName_of_unicode cls hcls hdot c cs hc hg hcs⟩
 
 /-! ### lexical errors -/
 
@@ -474,19 +513,23 @@ theorem endsTop_of_append {a s : List Nat} (h : EndsTop cls (a ++ s)) : EndsTop 
 theorem endsTop_of_cons {a : Nat} {s : List Nat} (h : EndsTop cls (a :: s)) : EndsTop cls s :=
   endsTop_of_append (a := [a]) h
 
-/-- a well-formed name does not end at top level -/
-theorem wfName_not_endsTop {n : List Nat} (hn : WfName cls n) : ¬ EndsTop cls n := by
+/-- a well-formed name does not end at top level: its last character is alphanumeric, hence
+(`ClsOk`) neither whitespace nor a parenthesis, and it is not the dot -/
+theorem wfName_not_endsTop (hcls : ClsOk cls) {n : List Nat} (hn : WfName cls n) :
+    ¬ EndsTop cls n := by
   intro h
+  have hal := wfName_alnum hcls hn
   obtain ⟨⟨c, cs, rfl, _⟩, hall⟩ := hn
   cases hl : (c :: cs).getLast? with
   | none => simp at hl
   | some d =>
-    obtain ⟨h1, h2, h3, h4, _⟩ := hall d (List.mem_of_getLast? hl)
+    have hd := List.mem_of_getLast? hl
+    obtain ⟨h1, h2, h3, _⟩ := alnum_facts hcls (hal d hd)
     rcases h d hl with h' | h' | h' | h'
     · rw [h1] at h'; cases h'
     · exact h2 h'
     · exact h3 h'
-    · exact h4 h'
+    · exact hall d hd h'
 
 theorem nameEnd_append {s : List Nat} (hs : NameEnd cls s) (hne : s ≠ []) (rest : List Nat) :
     NameEnd cls (s ++ rest) := by
@@ -496,7 +539,7 @@ theorem nameEnd_append {s : List Nat} (hs : NameEnd cls s) (hne : s ≠ []) (res
 
 /-- after a rendering the lexer has produced its tokens and continues at top level with whatever
 follows, provided the rendering ends at top level or — if it ends inside a name — what follows may
-end a name (e.g. starts with a backslash) -/
+end a name (it is empty or starts with a character that is not alphanumeric) -/
 theorem lex_prefix' (hcls : ClsOk cls) {ts : List CToken} {pre : List Nat}
     (h : Renders cls ts pre) :
     ∀ (i : Nat) (rest : List Nat), (EndsTop cls pre ∨ NameEnd cls rest) →
@@ -532,7 +575,7 @@ theorem lex_prefix' (hcls : ClsOk cls) {ts : List CToken} {pre : List Nat}
       | nil =>
         rcases he with he | he
         · rw [List.append_nil] at he
-          exact absurd he (wfName_not_endsTop hn)
+          exact absurd he (wfName_not_endsTop hcls hn)
         · exact he
       | cons c s => exact hs
     rw [List.append_assoc, lex_name hcls hn hs', ih _ _ (he.imp endsTop_of_append id),
@@ -549,9 +592,9 @@ theorem lex_prefix (hcls : ClsOk cls) {ts : List CToken} {pre : List Nat}
   fun he i rest => lex_prefix' hcls h i rest (Or.inl he)
 
 /-- renderings compose: after a rendering that ends at top level — or, if it ends inside a name,
-when what follows may end a name (whitespace, a parenthesis, a backslash, the end of the input) —
-any rendering may follow -/
-theorem renders_append {ts₁ ts₂ : List CToken} {pre s : List Nat}
+when what follows may end a name (the end of the input or a character that is not alphanumeric:
+whitespace, a parenthesis, a backslash …) — any rendering may follow -/
+theorem renders_append (hcls : ClsOk cls) {ts₁ ts₂ : List CToken} {pre s : List Nat}
     (h₁ : Renders cls ts₁ pre) (h₂ : Renders cls ts₂ s) :
     (EndsTop cls pre ∨ NameEnd cls s) → Renders cls (ts₁ ++ ts₂) (pre ++ s) := by
   induction h₁ with
@@ -573,7 +616,7 @@ theorem renders_append {ts₁ ts₂ : List CToken} {pre s : List Nat}
       | nil =>
         rcases he with he | he
         · rw [List.append_nil] at he
-          exact absurd he (wfName_not_endsTop hn)
+          exact absurd he (wfName_not_endsTop hcls hn)
         · exact he
       | cons c s' => exact hs
     have := Renders.name hn hs' (ih (he.imp endsTop_of_append id))
@@ -589,11 +632,12 @@ theorem renders_ws_prefix {ts : List CToken} {s : List Nat} (h : Renders cls ts 
     exact .ws (hws w (by simp)) (ih (fun v hv => hws v (by simp [hv])))
 
 /-- whitespace followed by a backslash may end a name, and so may the backslash alone -/
-theorem nameEnd_ws_backslash (ws s : List Nat) (hws : ∀ w ∈ ws, cls.isWs w = true) :
+theorem nameEnd_ws_backslash (hcls : ClsOk cls) (ws s : List Nat)
+    (hws : ∀ w ∈ ws, cls.isWs w = true) :
     NameEnd cls (ws ++ cBackslash :: s) := by
   cases ws with
-  | nil => exact Or.inr (Or.inr (Or.inr rfl))
-  | cons w ws => exact Or.inl (hws w (by simp))
+  | nil => exact backslash_not_alnum hcls
+  | cons w ws => exact ws_not_alnum hcls (hws w (by simp))
 
 /-- inside a binder, after its first character: alphanumeric characters are accumulated -/
 theorem lex_lam_acc (rest : List Nat) (n : List Nat) :
@@ -611,6 +655,20 @@ theorem lex_lam_acc (rest : List Nat) (n : List Nat) :
 
 end C09C
 
+/-- LEXICAL ERROR, general form: after a prefix that renders complete tokens and either ends at top
+level or ends inside a name that the offending character ends (it is not alphanumeric), a character
+that is neither a glyph, a parenthesis, whitespace nor alphabetic is reported with its index -/
+theorem tokenizeCla_invalid_top' (cls : CharCls) (hcls : Cl.ClsOk cls)
+    (ts₀ : List CToken) (pre : List Nat) (c : Nat) (post : List Nat)
+    (hpre : Cl.Renders cls ts₀ pre) (hend : Cl.EndsTop cls pre ∨ cls.isAlnum c = false)
+    (hglyph : isLam c = false) (hlp : c ≠ cLparen) (hrp : c ≠ cRparen)
+    (hws : cls.isWs c = false) (halpha : cls.isAlpha c = false) :
+    tokenizeCla cls (pre ++ c :: post) = .error (.InvalidCharacter pre.length c) := by
+  unfold tokenizeCla
+  rw [lex_prefix' hcls hpre 0 (c :: post) hend]
+  simp [tokenizeClaAux, hglyph, hlp, hrp, hws, halpha]
+  rfl
+
 /-- LEXICAL ERROR at top level: after a prefix that renders complete tokens and ends at top level
 (with whitespace, a parenthesis or a binder dot), a character that is neither a glyph, a
 parenthesis, whitespace nor alphabetic is reported with its index -/
@@ -619,11 +677,28 @@ theorem tokenizeCla_invalid_top (cls : CharCls) (hcls : Cl.ClsOk cls)
     (hpre : Cl.Renders cls ts₀ pre) (hend : Cl.EndsTop cls pre)
     (hglyph : isLam c = false) (hlp : c ≠ cLparen) (hrp : c ≠ cRparen)
     (hws : cls.isWs c = false) (halpha : cls.isAlpha c = false) :
-    tokenizeCla cls (pre ++ c :: post) = .error (.InvalidCharacter pre.length c) := by
-  unfold tokenizeCla
-  rw [lex_prefix hcls hpre hend]
-  simp [tokenizeClaAux, hglyph, hlp, hrp, hws, halpha]
-  rfl
+    tokenizeCla cls (pre ++ c :: post) = .error (.InvalidCharacter pre.length c) :=
+  tokenizeCla_invalid_top' cls hcls ts₀ pre c post hpre (Or.inl hend) hglyph hlp hrp hws halpha
+
+/-- LEXICAL ERROR directly after a variable name: after a prefix that renders complete tokens and
+ends at top level, and a well-formed name `n`, a character that cannot continue the name (not
+alphanumeric) and cannot start a token either (not a glyph, a parenthesis, whitespace or a letter)
+is reported with its index (e.g. `x.y` ↦ `InvalidCharacter 1 '.'`, `λx.x-` ↦
+`InvalidCharacter 4 '-'`) -/
+theorem tokenizeCla_invalid_after_name (cls : CharCls) (hcls : Cl.ClsOk cls)
+    (ts₀ : List CToken) (pre n : List Nat) (c : Nat) (post : List Nat)
+    (hpre : Cl.Renders cls ts₀ pre) (hend : Cl.EndsTop cls pre) (hn : Cl.WfName cls n)
+    (halnum : cls.isAlnum c = false)
+    (hglyph : isLam c = false) (hlp : c ≠ cLparen) (hrp : c ≠ cRparen)
+    (hws : cls.isWs c = false) (halpha : cls.isAlpha c = false) :
+    tokenizeCla cls (pre ++ n ++ c :: post)
+      = .error (.InvalidCharacter (pre.length + n.length) c) := by
+  have hr : Cl.Renders cls (ts₀ ++ [CName n]) (pre ++ (n ++ [])) :=
+    renders_append hcls hpre (.name hn trivial .nil) (Or.inl hend)
+  rw [List.append_nil] at hr
+  have := tokenizeCla_invalid_top' cls hcls _ (pre ++ n) c post hr (Or.inr halnum)
+    hglyph hlp hrp hws halpha
+  rwa [List.length_append] at this
 
 /-- LEXICAL ERROR inside a binder: after such a prefix, a glyph and a (possibly empty) partial
 binder name `nm`, a character other than the dot that cannot continue the name — not alphabetic
@@ -669,7 +744,7 @@ theorem tokenizeCla_invalid_binder_backslash (cls : CharCls) (hcls : Cl.ClsOk cl
     tokenizeCla cls (pre ++ cBackslash :: (nm ++ c :: post))
       = .error (.InvalidCharacter (pre.length + 1 + nm.length) c) := by
   unfold tokenizeCla
-  have hne : NameEnd cls (cBackslash :: (nm ++ c :: post)) := Or.inr (Or.inr (Or.inr rfl))
+  have hne : NameEnd cls (cBackslash :: (nm ++ c :: post)) := backslash_not_alnum hcls
   rw [lex_prefix' hcls hpre 0 _ (Or.inr hne),
     lex_top_glyph (show isLam cBackslash = true by decide)]
   cases nm with
@@ -691,12 +766,13 @@ theorem tokenizeCla_invalid_binder_backslash (cls : CharCls) (hcls : Cl.ClsOk cl
 /-- WHITESPACE BEFORE A BACKSLASH BINDER: a variable name may be followed directly by a backslash
 binder; with or without whitespace in between the string renders the same named tokens
 (`pre`: any rendering that ends at top level, so that the name `n` starts a token) -/
-theorem renders_name_backslash (cls : CharCls) (ts₀ cts : List CToken) (pre n ws s : List Nat)
+theorem renders_name_backslash (cls : CharCls) (hcls : Cl.ClsOk cls) (ts₀ cts : List CToken)
+    (pre n ws s : List Nat)
     (hpre : Cl.Renders cls ts₀ pre) (hend : Cl.EndsTop cls pre) (hn : Cl.WfName cls n)
     (hws : ∀ w ∈ ws, cls.isWs w = true) (hs : Cl.Renders cls cts (cBackslash :: s)) :
     Cl.Renders cls (ts₀ ++ CName n :: cts) (pre ++ (n ++ (ws ++ cBackslash :: s))) :=
-  renders_append hpre
-    (.name hn (nameEnd_ws_backslash ws s hws) (renders_ws_prefix hs ws hws)) (Or.inl hend)
+  renders_append hcls hpre
+    (.name hn (nameEnd_ws_backslash hcls ws s hws) (renders_ws_prefix hs ws hws)) (Or.inl hend)
 
 /-! ### name resolution vs. the standard named → De Bruijn translation on trees -/
 
@@ -1088,20 +1164,30 @@ def asciiCls : CharCls where
     else if 65 ≤ c ∧ c ≤ 70 then some (c - 55) else none
 
 theorem asciiCls_ok : ClsOk asciiCls := by
-  intro c h
-  simp only [asciiCls, Bool.or_eq_true, beq_iff_eq] at h
-  rcases h with ((rfl | rfl) | rfl) | rfl <;> decide
+  refine ⟨?_, ?_, ?_⟩
+  · intro c h
+    simp only [asciiCls, Bool.or_eq_true, beq_iff_eq] at h
+    rcases h with ((rfl | rfl) | rfl) | rfl <;> decide
+  · intro c h
+    simp only [asciiCls] at h ⊢
+    rw [h]; rfl
+  · intro c h
+    simp only [asciiCls, Bool.or_eq_true, Bool.and_eq_true, decide_eq_true_eq, beq_iff_eq] at h
+    simp only [asciiCls, cLparen, cRparen, cBackslash, Bool.or_eq_false_iff, beq_eq_false_iff_ne,
+      ne_eq]
+    omega
+
+/-- a character that is not alphanumeric may follow a name -/
+theorem nameEnd_of {c : Nat} {s : List Nat} (h : asciiCls.isAlnum c = false) :
+    NameEnd asciiCls (c :: s) := h
 
 theorem wf_single (c : Nat) (h1 : asciiCls.isAlpha c = true) (h2 : isLam c = false)
-    (h3 : asciiCls.isWs c = false) (h4 : c ≠ cLparen) (h5 : c ≠ cRparen) (h6 : c ≠ cDot) :
-    WfName asciiCls [c] :=
-  ⟨⟨c, [], rfl, h1, h2, by simp⟩, by
-    have h7 : c ≠ cBackslash := by rintro rfl; revert h2; decide
-    simp [h3, h4, h5, h6, h7]⟩
+    (h3 : c ≠ cDot) : WfName asciiCls [c] :=
+  ⟨⟨c, [], rfl, h1, h2, by simp⟩, by simp [h3]⟩
 
-theorem wf_x : WfName asciiCls [120] := wf_single 120 (by decide) (by decide) (by decide) (by decide) (by decide) (by decide)
-theorem wf_y : WfName asciiCls [121] := wf_single 121 (by decide) (by decide) (by decide) (by decide) (by decide) (by decide)
-theorem wf_z : WfName asciiCls [122] := wf_single 122 (by decide) (by decide) (by decide) (by decide) (by decide) (by decide)
+theorem wf_x : WfName asciiCls [120] := wf_single 120 (by decide) (by decide) (by decide)
+theorem wf_y : WfName asciiCls [121] := wf_single 121 (by decide) (by decide) (by decide)
+theorem wf_z : WfName asciiCls [122] := wf_single 122 (by decide) (by decide) (by decide)
 
 /-- `λx.λy.x y z` is a rendering of its tokens … -/
 theorem renders₁ : Renders asciiCls
@@ -1109,8 +1195,8 @@ theorem renders₁ : Renders asciiCls
     [955, 120, 46, 955, 121, 46, 120, 32, 121, 32, 122] :=
   .lam (g := 955) (n := [120]) (by decide) wf_x <|
   .lam (g := 955) (n := [121]) (by decide) wf_y <|
-  .name (n := [120]) wf_x (Or.inl (by decide)) <| .ws (by decide) <|
-  .name (n := [121]) wf_y (Or.inl (by decide)) <| .ws (by decide) <|
+  .name (n := [120]) wf_x (nameEnd_of (by decide)) <| .ws (by decide) <|
+  .name (n := [121]) wf_y (nameEnd_of (by decide)) <| .ws (by decide) <|
   .name (n := [122]) wf_z trivial .nil
 
 /-- … and so is `  \x. \y.x  y z ` (other glyph, other whitespace) -/
@@ -1120,9 +1206,9 @@ theorem renders₂ : Renders asciiCls
   .ws (by decide) <| .ws (by decide) <|
   .lam (g := 92) (n := [120]) (by decide) wf_x <| .ws (by decide) <|
   .lam (g := 92) (n := [121]) (by decide) wf_y <|
-  .name (n := [120]) wf_x (Or.inl (by decide)) <| .ws (by decide) <| .ws (by decide) <|
-  .name (n := [121]) wf_y (Or.inl (by decide)) <| .ws (by decide) <|
-  .name (n := [122]) wf_z (Or.inl (by decide)) <| .ws (by decide) .nil
+  .name (n := [120]) wf_x (nameEnd_of (by decide)) <| .ws (by decide) <| .ws (by decide) <|
+  .name (n := [121]) wf_y (nameEnd_of (by decide)) <| .ws (by decide) <|
+  .name (n := [122]) wf_z (nameEnd_of (by decide)) <| .ws (by decide) .nil
 
 example : tokenizeCla asciiCls [955, 120, 46, 955, 121, 46, 120, 32, 121, 32, 122]
     = .ok [CLambda [120], CLambda [121], CName [120], CName [121], CName [122]] :=
@@ -1165,30 +1251,40 @@ example : tokenizeCla asciiCls [955, 97, 46, 955, 98, 32, 97]
     = .error (.InvalidCharacter 5 32) :=
   tokenizeCla_invalid_binder asciiCls asciiCls_ok [CLambda [97]] [955, 97, 46] 955 [98] 32 [97]
     (.lam (g := 955) (n := [97]) (by decide)
-      (wf_single 97 (by decide) (by decide) (by decide) (by decide) (by decide) (by decide)) .nil)
+      (wf_single 97 (by decide) (by decide) (by decide)) .nil)
     (by intro c h; simp at h; subst h; decide) (by decide)
     (by intro a as h; cases h; simp; decide) (by decide) (by decide)
 
 /-- `x #` ↦ `InvalidCharacter (2, '#')` -/
 example : tokenizeCla asciiCls [120, 32, 35, 120] = .error (.InvalidCharacter 2 35) :=
   tokenizeCla_invalid_top asciiCls asciiCls_ok [CName [120]] [120, 32] 35 [120]
-    (.name (n := [120]) wf_x (Or.inl (by decide)) (.ws (by decide) .nil))
+    (.name (n := [120]) wf_x (nameEnd_of (by decide)) (.ws (by decide) .nil))
     (by intro c h; simp at h; subst h; decide)
     (by decide) (by decide) (by decide) (by decide) (by decide)
 
-/-- OBSERVATION (faithful to the Rust lexer): only binder names are validated.  In variable
-position every character other than whitespace, parentheses and the backslash continues a name, so
-`x+1.λ` is one (free) variable name … -/
-example : tokenizeCla asciiCls [120, 43, 49, 46, 955] = .ok [CName [120, 43, 49, 46, 955]] := rfl
+/-- identifiers are validated in variable position too: a variable name is a letter followed by
+alphanumeric characters, and the first other character is lexed at top level.  `x+1.λ` (accepted as
+ONE name before the repair F10) is a lexical error … -/
+example : tokenizeCla asciiCls [120, 43, 49, 46, 955] = .error (.InvalidCharacter 1 43) := rfl
 
-/-- … but a backslash ends a name and opens a binder: `x\y.y` is `x`, `\y.`, `y` -/
+/-- … and so are `x.y`, `x#` and `λx.x-` (where a bound variable used to turn silently into a free
+one named `x-`) -/
+example : tokenizeCla asciiCls [120, 46, 121] = .error (.InvalidCharacter 1 46) := rfl
+example : tokenizeCla asciiCls [120, 35] = .error (.InvalidCharacter 1 35) := rfl
+example : tokenizeCla asciiCls [955, 120, 46, 120, 45] = .error (.InvalidCharacter 4 45) := rfl
+
+/-- `λ` is a letter: it continues a name (`xλy.y` is the name `xλy`, then the invalid `.`) -/
+example : tokenizeCla asciiCls [120, 955, 121, 46, 121] = .error (.InvalidCharacter 3 46) := rfl
+example : tokenizeCla asciiCls [120, 955, 121] = .ok [CName [120, 955, 121]] := rfl
+
+/-- a backslash ends a name and opens a binder: `x\y.y` is `x`, `\y.`, `y` -/
 example : tokenizeCla asciiCls [120, 92, 121, 46, 121]
     = .ok [CName [120], CLambda [121], CName [121]] := rfl
 
 /-- `x\y.y` is a rendering of these tokens (no separator needed before a backslash) -/
 theorem renders₆ : Renders asciiCls [CName [120], CLambda [121], CName [121]]
     [120, 92, 121, 46, 121] :=
-  .name (n := [120]) wf_x (Or.inr (Or.inr (Or.inr rfl))) <|
+  .name (n := [120]) wf_x (nameEnd_of (by decide)) <|
   .lam (g := 92) (n := [121]) (by decide) wf_y <|
   .name (n := [121]) wf_y trivial .nil
 
@@ -1197,7 +1293,7 @@ example : tokenizeCla asciiCls [120, 92, 49] = .error (.InvalidCharacter 2 49) :
   tokenizeCla_invalid_binder_backslash asciiCls asciiCls_ok [CName [120]] [120] [] 49 []
     (.name (n := [120]) wf_x trivial .nil) (by intro a as h; cases h) (by decide) (by decide)
 
-/-- … while the same characters are rejected inside a binder: `λx+.x` -/
+/-- the same characters are rejected inside a binder: `λx+.x` -/
 example : tokenizeCla asciiCls [955, 120, 43, 46, 120] = .error (.InvalidCharacter 2 43) := rfl
 
 /-- an unterminated or empty binder at the end of the input is pushed as it is: `λx` , `λ` -/
